@@ -54,13 +54,13 @@ def jobs():
     add("islice[None]", (IT, "islice"), (RI, "islice"), isl(None))
     add("islice[start,None]", (IT, "islice"), (RI, "islice"), isl("n", None))
     # shapes with start+stop or a step need the declared modular invariant of DESIGN A.1: see jobs_islice.py
-    add("batched[n]", (IT, "batched"), (RI, "batched"), one_src([lambda ctx, env: SInt(z3.Int("n"))]), opts={"fresh_ok": True})
-    add("batched[n,strict]", (IT, "batched"), (RI, "batched"), one_src([lambda ctx, env: SInt(z3.Int("n")), C(True)]), opts={"fresh_ok": True})
+    add("batched[n]", (IT, "batched"), (RI, "batched"), one_src([lambda ctx, env: SInt(z3.Int("n"))]), opts={"fresh_ok": True, "window": lambda v: SInt(z3.Int("n"))})
+    add("batched[n,strict]", (IT, "batched"), (RI, "batched"), one_src([lambda ctx, env: SInt(z3.Int("n")), C(True)]), opts={"fresh_ok": True, "window": lambda v: SInt(z3.Int("n"))})
     # collection builders and sorted
     for nm, rn in (("list", "list_"), ("tuple", "tuple_"), ("set", "set_"), ("dict", "dict_")):
-        add(nm, (B, nm), (RB, rn), one_src(), kind="coro", props=P_AGG)
-    add("sorted[]", (B, "sorted"), (RB, "sorted_"), one_src(), kind="coro", props=P_AGG)
-    add("sorted[reverse]", (B, "sorted"), (RB, "sorted_"), one_src(kw={"reverse": C(True)}), kind="coro", props=P_AGG)
+        add(nm, (B, nm), (RB, rn), one_src(), kind="coro", props=P_AGG, opts={"accumulates": "documented: collection builder"})
+    add("sorted[]", (B, "sorted"), (RB, "sorted_"), one_src(), kind="coro", props=P_AGG, opts={"accumulates": "documented: sorted holds everything"})
+    add("sorted[reverse]", (B, "sorted"), (RB, "sorted_"), one_src(kw={"reverse": C(True)}), kind="coro", props=P_AGG, opts={"accumulates": "documented: sorted holds everything"})
     add("sorted[key]", (B, "sorted"), (RB, "sorted_"), one_src(kw={"key": F("key")}), kind="coro", props=("C02", "C04", "C18"))
     add("sorted[key,reverse]", (B, "sorted"), (RB, "sorted_"), one_src(kw={"key": F("key"), "reverse": C(True)}), kind="coro", props=("C02", "C04", "C18"))
     return J
